@@ -115,12 +115,19 @@ type c10Doc struct {
 // inner) and optionally one malformed row (no bullet / empty text / a row nested two levels too deep).
 // Rows carry their notation bytes as a literal prefix because the splitter looks at the first byte.
 func c10Document(n int, name func(string) string, allowBad bool, prev0 int) *c10Doc {
+	return c10DocumentB(n, name, allowBad, prev0, false)
+}
+
+// bullets: list-item roots only, every root row with its own list symbol (-, * or +), no blank and no malformed row.
+func c10DocumentB(n int, name func(string) string, allowBad bool, prev0 int, bullets bool) *c10Doc {
 	d := &c10Doc{}
-	d.sharp = verifFlag("sharp")
-	blankAt := int(verifChoose("blankAt", 0, uint(n))) // n: none
-	badAt := n
-	if allowBad {
-		badAt = int(verifChoose("badAt", 0, uint(n)))
+	blankAt, badAt := n, n
+	if !bullets {
+		d.sharp = verifFlag("sharp")
+		blankAt = int(verifChoose("blankAt", 0, uint(n))) // n: none
+		if allowBad {
+			badAt = int(verifChoose("badAt", 0, uint(n)))
+		}
 	}
 	prev := prev0 // depth of the item row before the document (-1: none)
 	blockHasChild := false
@@ -163,6 +170,8 @@ func c10Document(n int, name func(string) string, allowBad bool, prev0 int) *c10
 			// headings are trimmed on both sides: such names are notation
 			verifAssume(!strings.HasPrefix(nm, " ") && !strings.HasSuffix(nm, " ") && !strings.HasPrefix(nm, "#"))
 			d.rows = append(d.rows, verifRow("# ", 0, 0, nm))
+		case dep == 0 && bullets:
+			d.rows = append(d.rows, verifRow([]string{"- ", "* ", "+ "}[verifChoose("bullet", 0, 2)], 0, 0, nm))
 		case dep == 0:
 			d.rows = append(d.rows, verifRow("- ", 0, 0, nm))
 		case d.sharp:
@@ -197,7 +206,8 @@ func c10Rep(c string, n int) string {
 // a root; mkdir: same file-system state; verify: same verdict).
 func VerifC10() {
 	n := verifN() % 10
-	doc := c10Document(n, verifName, true, -1)
+	// verifN() >= 100: the bullet family (every root row with its own list symbol), text output only
+	doc := c10DocumentB(n, verifName, true, -1, verifN() >= 100)
 	mode := uint(0) // verifN() >= 10: text output only (used for the additional scheduling policies)
 	if verifN() < 10 {
 		mode = verifChoose("mode", 0, 5)
